@@ -536,6 +536,18 @@ T = [101, 102, 103]
 FRESH = 104
 
 
+def boundary_types() -> List[int]:
+    """message ids at the edges of what the client API accepts (any int32): the lowest ids, both sides of
+    MAX_MESSAGE_TYPES (the definition compiler accepts 0..MAX_MESSAGE_TYPES inclusive), a large id, the neighbour of
+    ALL_MESSAGE_TYPES, negative ids.  None of them is a type the manager handles itself."""
+    try:
+        import pyrtma.core_defs as cd
+        m = int(cd.MAX_MESSAGE_TYPES)
+    except Exception:  # noqa: BLE001
+        m = 10000
+    return [0, 1, m - 1, m, m + 1, 65536, ALLT - 1, -1, -2147483648]
+
+
 def arg_lists(maxlen: int) -> List[List[int]]:
     """every argument list over {t1,t2,t3,ALL} up to maxlen, duplicates included"""
     out: List[List[int]] = []
@@ -589,6 +601,8 @@ def exhaustive(arglen: int, seqlen: int):
 
 def rand_case(rng, n_ops: int = 30) -> Dict[str, Any]:
     pool = [101, 102, 103, 105, 106, 107, 108]
+    if rng.random() < 0.3:      # ids at the edges of the id space next to ordinary ones
+        pool = pool[:3] + rng.sample(boundary_types(), 4)
     U = pool + [FRESH]
     ops = []
     for _ in range(rng.randint(3, n_ops)):
@@ -632,7 +646,20 @@ def directed() -> List[Dict[str, Any]]:
         [("subscribe", [101]), ("pause", [102]), ("reconnectLost", []), ("subscribe", [103])],
         [("subscribe", [ALLT]), ("reconnectLost", []), ("subscribe", [103])],
     ]
-    return [{"U": U + [105, 106], "ops": ops, "tag": "directed"} for ops in d]
+    out = [{"U": U + [105, 106], "ops": ops, "tag": "directed"} for ops in d]
+    # every operation on ids at the edges of the id space (one probe per edge id after every phase)
+    B = boundary_types()
+    UB = B + [101]
+    for b in B:
+        o = B[(B.index(b) + 1) % len(B)]
+        out.append({"U": UB, "tag": "directed-boundary", "ops": [
+            ("subscribe", [b]), ("pause", [b]), ("resume", [b]), ("pauseCtx", [b, 101]), ("unsubscribe", [b]),
+            ("subCtx", [b, o]), ("subscribe", [101, b, o]), ("pauseAll", []), ("resumeAll", []), ("subCtx", [o, b]),
+            ("unsubAll", []), ("pause", [b]), ("subCtx", [b]), ("resumeAll", []), ("subscribe", [ALLT]), ("subscribe", [b]),
+            ("unsubscribe", [ALLT]), ("resume", [b, o])]})
+    out.append({"U": UB, "tag": "directed-boundary", "ops": [("subscribe", B), ("pause", B[::2]), ("unsubscribe", B[1::2]),
+                                                              ("resumeAll", []), ("pauseCtx", B), ("unsubAll", [])]})
+    return out
 
 
 # ------------------------------------------------------------------------------------------------
